@@ -13,7 +13,6 @@ import (
 	toml "github.com/pelletier/go-toml"
 	"github.com/zmap/zcrypto/x509"
 	"github.com/zmap/zlint/v3/lint"
-	"github.com/zmap/zlint/v3/util"
 
 	"verif/corpus"
 	"verif/gen"
@@ -82,15 +81,18 @@ func freshInstance(li mon.LintInfo) (inst any, target any) {
 	return
 }
 
+// outOfScope: the source-scope gate for certificate lints (decided with the scope reference of C04).
+func outOfScope(li mon.LintInfo, o *mon.Obj) bool {
+	if li.Kind != corpus.Cert {
+		return false
+	}
+	return !factsFromParsed(o.Cert).inScope(li.Meta.Source)
+}
+
 // runInstance is the reference life-cycle on an instance the harness configured itself.
 func runInstance(li mon.LintInfo, o *mon.Obj, inst any) mon.SD {
-	if li.Kind == corpus.Cert {
-		switch {
-		case li.Meta.Source == lint.CABFBaselineRequirements && !util.IsServerAuthCert(o.Cert),
-			li.Meta.Source == lint.CABFSMIMEBaselineRequirements && !util.IsEmailProtectionCert(o.Cert),
-			li.Meta.Source == lint.CABFCSBaselineRequirements && !util.IsCodeSigning(o.Cert.PolicyIdentifiers):
-			return mon.SD{Status: int(lint.NA)}
-		}
+	if outOfScope(li, o) {
+		return mon.SD{Status: int(lint.NA)}
 	}
 	var applies bool
 	switch li.Kind {
@@ -191,6 +193,11 @@ func c11Expect(cl cfgLint, o *mon.Obj, tree *toml.Tree, base mon.Snap) expect {
 	v := tree.Get(n)
 	if v == nil {
 		return expect{sd: base[n]}
+	}
+	// a certificate outside the source document's scope is NA before the lint is even constructed or configured
+	// (property C04), so an inapplicable section cannot show there
+	if outOfScope(cl.info, o) {
+		return expect{sd: mon.SD{Status: int(lint.NA)}}
 	}
 	sub, ok := v.(*toml.Tree)
 	if !ok {
